@@ -21,8 +21,8 @@ import vlib
 from gen import coverage as G
 
 ID = "C05"
-PROPS = ["IsoVerif/Props/C05.lean"]
-TARGETS = ["IsoVerif.Props.C05"]
+PROPS = ["IsoVerif/Props/C05.lean", "IsoVerif/Props/C05Multi.lean"]
+TARGETS = ["IsoVerif.Props.C05", "IsoVerif.Props.C05Multi"]
 GEN_DEPS = ["Prims", "Constants", "Enums", "EventClasses"]
 LEVEL = "proof"
 RULE = ("synthetic coverage dictionaries (bin counts 1..520 around the 128-bin minimum, thresholds at the 1 % boundary, "
@@ -31,16 +31,24 @@ RULE = ("synthetic coverage dictionaries (bin counts 1..520 around the 128-bin m
         "short reads in the last bin, thin chains) through the real process() loop in both storages, random sub-region "
         "queries of the in-memory index, dumped index dictionaries, filters, record lists through the resolver; a case is "
         "non-trivial when the model returns a non-error value with >= 1 forwarded alignment / region / record and "
-        "model == implementation; distinct by (op, input)")
+        "model == implementation; distinct by (op, input); experiments of k = 1..4 BAM files (harness/props/C05multi.py): the "
+        "same alignment sets partitioned uniformly / with empty files / by cluster / with (start, end) twins across files, an "
+        "exhaustive 3-record x 3-file universe, fake handles and real indexed BAM files, through the real collector in both "
+        "modes, the real merger, the real in-memory storage on (bam_index, alignment) pairs, EnumStats.merge + "
+        "count_unaligned_reads, FileNameGrouper through the real process_intergenic")
 TRUSTED = ["pysam fetch(chr, a, b+1) = records overlapping [a, b] in file order (checked against pysam on a synthetic BAM each run)",
            "fake alignment objects expose exactly the attributes the collector reads (reference_start/end, flags, reference_id, mapping_quality)",
-           "assigners / exon correctors / printers downstream of the collector are not modelled: the pipeline oracle watches them"]
+           "assigners / exon correctors / printers downstream of the collector are not modelled: the pipeline oracle watches them",
+           "several BAM files: PriorityQueue.get_nowait = the minimum of the queued tuples; pysam iterators obtained with "
+           "multiple_iterators=True are independent of each other (exercised on real BAM files in every run)"]
 ASSUMPTIONS = ["CPython int semantics = Lean Int; x // 256 = Int ediv for the positive divisor",
                "cov > max(1, max_cov * 0.01) evaluated in floats equals cov > 1 and 100 * cov > max_cov (max_cov < 1e13); "
                "the correspondence hits max_cov in {99, 100, 101} x cov",
                "alignments are well formed (reference_end > reference_start); a placed unmapped record (reference_end None) "
                "aborts the run with TypeError and is outside the quantifier",
-               "records fetched for a chromosome always have reference_id != -1"]
+               "records fetched for a chromosome always have reference_id != -1",
+               "several BAM files: every file is sorted by reference_start and all files of an experiment share the reference "
+               "(the collector reads the chromosome length from the first file); ValidFiles in Props/C05Multi.lean"]
 
 _AP = None
 
@@ -477,6 +485,10 @@ def correspondence(ctx):
     # 6. the assumed behaviour of pysam fetch
     _check_fetch_assumption(ctx)
 
+    # 7. experiments made of several BAM files (Model/RegionsMulti.lean)
+    from props import C05multi
+    C05multi.correspondence(ctx)
+
 
 def _first_cluster(alns):
     cl = []
@@ -865,6 +877,9 @@ def oracle(ctx, disagreements, broken):
         if r:
             ctx.fail(r[0], {"level": "pipeline", "spec": spec}, r[1])
     ctx.extra["oracle_cases"] = n_cases
+    # 4. experiments made of several BAM files
+    from props import C05multi
+    C05multi.oracle(ctx, disagreements, broken)
 
 
 def _report_alns(ctx, alns, small=False):
@@ -888,6 +903,9 @@ def replay(ctx, failure):
         return check_records(inp["recs"]) is not None
     if inp.get("level") == "pipeline":
         return check_pipeline(inp["spec"]) is not None
+    if str(inp.get("level", "")).startswith("multi"):
+        from props import C05multi
+        return C05multi.replay(ctx, failure)
     return False
 
 
